@@ -15,17 +15,7 @@ use vstd::prelude::*;
 
 verus! {
 
-pub struct LazyBigint { pub v: Ghost<int> }
-impl LazyBigint {
-    pub open spec fn val(&self) -> int { self.v@ }
-    /// num_traits::Signed (util/lazy_bigint.rs, under contract in V-int)
-    #[verifier::external_body]
-    pub fn is_negative(&self) -> (r: bool) ensures r == (self.val() < 0) { unimplemented!() }
-    #[verifier::external_body]
-    pub fn is_positive(&self) -> (r: bool) ensures r == (self.val() > 0) { unimplemented!() }
-    #[verifier::external_body]
-    pub fn is_zero(&self) -> (r: bool) ensures r == (self.val() == 0) { unimplemented!() }
-}
+// @@INCLUDE lazyint@@
 pub struct Func { pub id: Ghost<int> }
 pub enum XValue { Int(LazyBigint), Bool(bool), Function(Func) }
 /// `$crate::xvalue::XValue` as the macro `to_primitive!` names it
